@@ -239,7 +239,7 @@ print(json.dumps({"written_files": files, "read_back_error": err}))
 
 
 def bounded_repository_histories(ctx):
-    """Bounded stand-in (NOT a proof) for the file-system theorem that is not built: random histories of add_* calls over ten rate families
+    """Bounded stand-in (NOT a proof) for the file-system theorem that is not built: random histories of add_* calls over fourteen rate families
     in a fresh temporary repository (new files and updates of existing files interleaved, overwrites of the same key), mirrored in a plain
     dictionary; afterwards EVERY key of the universe is read through the public get_* functions: a written key returns the numbers of its
     last write bit for bit, a never-written key raises RuntimeError; nothing is created outside the repository directory."""
@@ -276,6 +276,16 @@ FAM = {
  "continuum_power": (lambda k, v, p: R.add_continuum_power_rate(k[0], k[1], v, repository_path=p), lambda k, p: R.get_continuum_radiated_power_rate(k[0], k[1], repository_path=p), lambda: (rnd.choice(EL), rnd.randint(1, 2)), 2),
  "cx_power": (lambda k, v, p: R.add_cx_power_rate(k[0], k[1], v, repository_path=p), lambda k, p: R.get_cx_radiated_power_rate(k[0], k[1], repository_path=p), lambda: (rnd.choice(EL), rnd.randint(1, 2)), 2),
 }
+# beam families: one file per (donor / target ...) holding several keys (transition -> {donor metastable: rate}; or one rate per file)
+def beam_table():
+    e = sorted(rnd.uniform(1e3, 1e5) for _ in range(3)); n = sorted(rnd.uniform(1e17, 1e20) for _ in range(2)); t = sorted(rnd.uniform(1, 1e4) for _ in range(4))
+    return {"e": e, "n": n, "t": t, "sen": np.array([[rnd.uniform(1e-14, 1e-12) for _ in n] for _ in e]), "st": np.array([rnd.uniform(1e-14, 1e-12) for _ in t]),
+            "eref": float(e[1]), "nref": float(n[0]), "tref": float(t[2]), "sref": rnd.uniform(1e-14, 1e-12)}
+def cx_table():
+    d = {"qref": rnd.uniform(1e-16, 1e-14)}
+    for ax in ("eb", "ti", "ni", "z", "b"):
+        k = rnd.randint(1, 4); d[ax] = sorted(rnd.uniform(1, 1e4) for _ in range(k)); d["q" + ("z" if ax == "z" else ("b" if ax == "b" else ax))] = [rnd.uniform(1e-16, 1e-14) for _ in range(k)]
+    return d
 def universe(fam):
     ks = set()
     for _ in range(400): ks.add(FAM[fam][2]())
@@ -298,6 +308,56 @@ for trial in range(%d):
                 key2 = (fam, key)
                 w = float(rnd.uniform(300, 900)); R.add_wavelength(key[0] if fam != "thermal_cx" and fam != "pec_thermal_cx" else key[2], 1, (3, 2), w, repository_path=d)
                 model[("wavelength", (key[0] if fam != "thermal_cx" and fam != "pec_thermal_cx" else key[2], 1, (3, 2)))] = w
+        # beam CX: several donor metastables under one (donor, receiver, charge, transition); stopping / population / emission: one rate per key
+        bmodel = {}
+        plan = [("cx", None)] * 2 + [(rnd.choice(("cx", "cx", "stopping", "population", "emission")), None) for _ in range(rnd.randint(3, 9))]
+        pin = (rnd.choice(EL), rnd.randint(1, 2), rnd.choice(TR[:2]))      # the first two writes: same key, metastable 1 then 2, separate calls
+        for step, (kind, _) in enumerate(plan):
+            tgt, q = rnd.choice(EL), rnd.randint(1, 2)
+            if kind == "cx":
+                tr, ms = rnd.choice(TR[:2]), rnd.randint(1, 3); val = cx_table()
+                if step < 2:
+                    tgt, q, tr = pin; ms = step + 1
+                R.add_beam_cx_rate(deuterium, ms, tgt, q, tr, {k: (list(v) if isinstance(v, list) else v) for k, v in val.items()}, repository_path=d)
+                bmodel[("cx", tgt, q, tr, ms)] = val
+            elif kind == "stopping":
+                val = beam_table(); R.add_beam_stopping_rate(deuterium, tgt, q, dict(val), repository_path=d); bmodel[("stopping", tgt, q)] = val
+            elif kind == "population":
+                ms = rnd.randint(2, 3); val = beam_table(); R.add_beam_population_rate(deuterium, ms, tgt, q, dict(val), repository_path=d); bmodel[("population", tgt, q, ms)] = val
+            else:
+                tr = rnd.choice(TR[:2]); val = beam_table(); R.add_beam_emission_rate(deuterium, tgt, q, tr, dict(val), repository_path=d); bmodel[("emission", tgt, q, tr)] = val
+        for tgt in EL:
+            for q in (1, 2):
+                for tr in TR[:2]:
+                    cases += 1
+                    want = {ms: v for (k0, t0, q0, tr0, ms), v in ((k, v) for k, v in bmodel.items() if k[0] == "cx") if t0 is tgt and q0 == q and tr0 == tr}
+                    try:
+                        got = R.get_beam_cx_rates(deuterium, tgt, q, tr, repository_path=d)
+                    except RuntimeError:
+                        got = []
+                    gm = {int(m): r for m, r in got}
+                    if sorted(gm) != sorted(want) or any(not all(np.array_equal(np.asarray(gm[m][f]), np.asarray(want[m][f])) for f in want[m]) for m in want):
+                        bad.append({"family": "beam_cx", "key": repr((tgt.name, q, tr)), "stored_metastables": sorted(gm), "written_metastables": sorted(want)})
+                    for fam, getter, key in (("emission", lambda: R.get_beam_emission_rate(deuterium, tgt, q, tr, repository_path=d), ("emission", tgt, q, tr)),):
+                        cases += 1
+                        try: g = getter()
+                        except RuntimeError: g = None
+                        w = bmodel.get(key)
+                        if (w is None) != (g is None) or (w is not None and not all(np.array_equal(np.asarray(g[f]), np.asarray(w[f])) for f in w)):
+                            bad.append({"family": fam, "key": repr((tgt.name, q, tr)), "written": w is not None, "readable": g is not None})
+                cases += 1
+                try: g = R.get_beam_stopping_rate(deuterium, tgt, q, repository_path=d)
+                except RuntimeError: g = None
+                w = bmodel.get(("stopping", tgt, q))
+                if (w is None) != (g is None) or (w is not None and not all(np.array_equal(np.asarray(g[f]), np.asarray(w[f])) for f in w)):
+                    bad.append({"family": "stopping", "key": repr((tgt.name, q)), "written": w is not None, "readable": g is not None})
+                for ms in (2, 3):
+                    cases += 1
+                    try: g = R.get_beam_population_rate(deuterium, ms, tgt, q, repository_path=d)
+                    except RuntimeError: g = None
+                    w = bmodel.get(("population", tgt, q, ms))
+                    if (w is None) != (g is None) or (w is not None and not all(np.array_equal(np.asarray(g[f]), np.asarray(w[f])) for f in w)):
+                        bad.append({"family": "population", "key": repr((tgt.name, q, ms)), "written": w is not None, "readable": g is not None})
         for fam in sorted(FAM):
             for key in universe(fam):
                 cases += 1
@@ -330,7 +390,7 @@ if home_before != home_after:
 print(json.dumps({"cases": cases, "bad": bad[:6]}))
 ''' % (ctx['seed'] + 6, n)
     out = run_native(ctx, code, timeout=900)
-    return {'name': 'repository add/get histories vs a dictionary model, ten families (BOUNDED stand-in, not counted as proved)',
+    return {'name': 'repository add/get histories vs a dictionary model, fourteen families (BOUNDED stand-in, not counted as proved)',
             'ok': bool(out) and out.get('bad') == [], 'detail': out, 'covers': ['repository'],
             'bound': '%d random histories of 4..14 writes, every key of the universe read back, seed %d' % (n, ctx['seed'] + 6)}
 
